@@ -241,8 +241,16 @@ def _slice_guard(s):
     return None
 
 
+def mutable_static(it):
+    """why a static item is state (interior mutability / `static mut`), or [] for an immutable table or a lazily computed constant"""
+    ty = str(it.get("ty"))
+    mutable = [k for k in ("Mutex<", "RwLock<", "Atomic", "RefCell<", "Cell<", "UnsafeCell<", "DashMap<", "OnceCell<", "OnceLock<") if k in ty] or (["static mut"] if it.get("mutbl") else [])
+    # Lazy<T>/LazyLock<T> over an immutable T is a constant computed on first use: not state
+    return [k for k in mutable if not (k in ("OnceCell<", "OnceLock<", "Cell<", "UnsafeCell<") and ("Lazy<" in ty or "LazyLock<" in ty) and not any(j in ty for j in ("Mutex<", "RwLock<", "Atomic", "RefCell<", "DashMap<")))]
+
+
 def r4_determinism(ctx):
-    r = ctx.rule("R4", "melvm has no unordered iteration, clock, RNG or environment reads; the heap HashMap is only accessed by key")
+    r = ctx.rule("R4", "melvm has no unordered iteration, clock, RNG or environment reads, and no static (global or thread-local) state; the heap HashMap is only accessed by key", positional=False)
     prog = ctx.prog
     n = 0
     for b in prog.bodies:
@@ -262,6 +270,19 @@ def r4_determinism(ctx):
             if "HashMap" in nm and b.crate == "melvm":
                 last = nm.split("::")[-1]
                 r.check(last in ("get", "insert", "new", "default", "with_capacity", "from_iter", "collect"), "heap@%s/%s" % (short, last), "heap access by key (%s)" % last, "%s uses HashMap::%s" % (b.nname, last), b.where(bi))
+    # no global state: a covenant's verdict is a function of (bytecode, transaction, environment); a static with interior mutability (cache, counter, memo table)
+    # reachable from the interpreter makes the verdict depend on what was executed before, on this node only
+    for it in prog.items:
+        nm = mir.norm_name(it["name"])
+        if it["kind"] != "static" or not nm.startswith("melvm::"):
+            continue
+        ty = str(it.get("ty"))
+        mutable = mutable_static(it)
+        if mutable:
+            r.violation("static:" + ("thread-local" if "__RUST_STD_INTERNAL" in nm else nm.split("::")[-1]), "mutable global state in the interpreter crate: static %s: %s — the result of an execution "
+                        "can depend on earlier executions in this process" % (nm[:100], ty[:120]))
+        else:
+            r.ok("static/" + nm.split("::")[-1], "immutable static %s" % nm)
     r.floor("melvm call sites scanned", n, 300)
     r.ok("scan", "%d non-logging call sites of melvm scanned" % n)
 
@@ -355,9 +376,11 @@ def r7_bounded_exp(ctx):
     init = [sig(x[1]) for x in kd if "checked_sub" not in sig(x[1])]
     r.check(init == ["AddWithOverflow((^k as u16), 1).0"], "budget/initial", "initial budget = k + 1 bits", "initial budget = %s" % init)
     # the loop runs while S > 0 and halves that same S every iteration (S: whatever the exponent variable is called / wherever the loop lives)
-    conds = [x for x in q.pick_atoms(cb, lambda c: c.startswith("Lt(ZERO, ")) if "ZERO" in x[1] and x[2] in blocks or "ZERO" in x[1]]
+    # (for the unsigned U256 `e > 0` and `e != 0` are one test: `loop { if e == ZERO { break } .. }` is the same loop)
+    POS = ("Lt(ZERO, ", "Ne(ZERO, ")
+    conds = [x for x in q.pick_atoms(cb, lambda c: c.startswith(POS)) if "ZERO" in x[1] and x[2] in blocks or "ZERO" in x[1]]
     subj = None
-    if len(conds) == 1 and conds[0][1].startswith("Lt(ZERO, "):
+    if len(conds) == 1 and conds[0][1].startswith(POS):
         op, L, R = q.as_cmp(conds[0][0])
         subj = R if "ZERO" in sig(L) else L
     r.check(subj is not None, "loop/cond", "loops while e > 0", "loop condition %s" % [c[1] for c in conds])
@@ -461,6 +484,92 @@ def r9_bounds_on_full_width(ctx):
         r.ok("narrowed-bound/none", "no comparison operand in the %d comparisons of the instruction code is a narrowing cast" % n)
 
 
+def r10_sigeok_bounds(ctx):
+    r = ctx.rule("R10", "SIGEOK: each of its three operands is length-tested with a strict upper bound before use (key > 32 → push 0, message > n → fail, signature > 64 → push 0), "
+                        "and a key that is not a valid Ed25519 key (Ed25519PK::from_bytes fails, e.g. shorter than 32 bytes) makes execution fail")
+    prog = ctx.prog
+    st = ctx.body(EX + "step::{closure#0}", r)
+    cands = []
+    for c in list(prog.all_nested(st)) + [b for b in prog.bodies if b.crate == "melvm" and b.kind != "Promoted"]:
+        if c in [x[0] for x in cands]:
+            continue
+        for bi, t in c.calls():
+            if t["fn"] and mir.norm_name(t["fn"]["path"]).endswith("Ed25519PK::verify"):
+                cands.append((c, bi, t))
+    r.anchor(cands, "the Ed25519PK::verify call of SIGEOK")
+    c, vbi, vt = cands[0]
+    ctx.analysed(c)
+    args = [q.novers(c.rec_operand(a, vbi, "T")) for a in vt["args"]]
+    if len(args) != 3:
+        r.undecided("sigeok/shape", "verify call with %d operands" % len(args), c.where(vbi))
+        return
+    pk, msg, sg = args
+    r.check(sig(pk).startswith("try(Ed25519PK::from_bytes("), "sigeok/key/invalid=>fail", "the key is try(Ed25519PK::from_bytes(..)): an invalid key fails the execution",
+            "the verifying key is %s: a byte string that is not an Ed25519 key no longer makes the execution fail" % sig(pk)[:120], c.where(vbi))
+
+    def src(e):
+        # the byte-string value behind a materialised operand
+        while isinstance(e, tuple):
+            if e[0] == "call" and len(e[2]) >= 1 and (e[1].endswith(("from_bytes", "Into::into", "From::from", "deref", "as_ref", "as_slice", "to_vec", "borrow")) or e[1] in ("try",)):
+                e = e[2][0]
+            elif e[0] in ("ref", "deref", "try", "mutated") and len(e) > 1 and isinstance(e[1], tuple):
+                e = e[1]
+            else:
+                break
+        return ("try", e) if isinstance(e, tuple) and e[0] == "call" and e[1].endswith("into_bytes") else e
+    roles = (("key", src(pk), 32, "Option::Some{0: Value::from_bool(0)}"), ("message", src(msg), None, "Option::None{}"), ("signature", src(sg), 64, "Option::Some{0: Value::from_bool(0)}"))
+    rets = [x for x in q.ret_assignments(c) if "from_residual" not in sig(x[2])]
+    atoms = q.cmp_atoms(c, complements=True)
+    chosen = {}
+    for role, val, K, want in roles:
+        s = sig(val)
+        mine = [(e, cn, ab) for e, cn, ab in atoms if "CatVec::len(%s)" % s in cn]
+        if not mine:
+            r.violation("sigeok/%s/bound" % role, "no length test of the %s (%s) before it is used" % (role, s[:80]), c.where(vbi))
+            continue
+        good = None
+        for e, cn, ab in mine:
+            if cn.startswith("Lt(") and cn.endswith(", CatVec::len(%s))" % s):
+                bound = cn[3:-len(", CatVec::len(%s))" % s)]
+                if (K is None and not bound.isdigit()) or (K is not None and bound == str(K)):
+                    good = (e, cn, ab)
+            elif K is not None and cn == "Le(%d, CatVec::len(%s))" % (K + 1, s):
+                good = (e, cn, ab)
+        if not good:
+            r.violation("sigeok/%s/bound" % role, "the length test of the %s is %s, not the strict upper bound `len > %s`: %s" %
+                        (role, "; ".join(x[1] for x in mine if not isinstance(x[0], tuple) or x[0][0] != "not")[:160], K if K is not None else "n",
+                         "a short key is answered with 0 instead of failing, or a full-length one is refused" if role == "key" else "operands of other lengths are treated differently from the specification"),
+                        c.where(mine[0][2]))
+            continue
+        r.ok("sigeok/%s/bound" % role, good[1])
+        chosen[role] = good
+    if len(chosen) == 3:
+        # within the bounds the instruction either verifies or fails (type error, invalid key): no other answer.  (`match from_bytes(..) { None => return X, .. }` reads
+        # as try(..) in the recovered expression whatever X is, so the failure path is decided here on the control flow.)
+        f = force(c, {g[0]: 0 for g in chosen.values()})
+        other = sorted({sig(x[2]) for x in rets if x[0] in f.reach and "Ed25519PK::verify" not in sig(x[2]) and sig(x[2]) != "Option::None{}"})
+        r.check(not other, "sigeok/within-bounds=>verify-or-fail", "with all three lengths within their bounds the only answers are the verification result or failure",
+                "with all three lengths within their bounds SIGEOK can still answer %s without verifying: an operand that is not a byte string or a key that is not an Ed25519 key "
+                "must make the execution fail" % other, c.where(vbi))
+    for role, val, K, want in roles:
+        if len(chosen) < 3:
+            break       # a bound is already reported; the outcomes cannot be separated without it
+        good = chosen[role]
+        tab = {g[0]: 0 for ro, g in chosen.items() if ro != role}
+        tab[good[0]] = 1
+        f = force(c, tab)
+        live = [x for x in rets if x[0] in f.reach]
+        outs = sorted({sig(x[2]) for x in live})
+        if vbi in f.reach:
+            r.violation("sigeok/%s/outcome" % role, "the signature is still verified when the %s exceeds its bound" % role, c.where(vbi))
+        elif outs == [want]:
+            r.ok("sigeok/%s/outcome" % role, "%s too long ⇒ %s" % (role, want))
+        elif all(o in ("Option::Some{0: Value::from_bool(0)}", "Option::None{}") for o in outs) and outs:
+            r.violation("sigeok/%s/outcome" % role, "an over-long %s gives %s, the specification says %s" % (role, outs, want), c.where(good[2]))
+        else:
+            r.undecided("sigeok/%s/outcome" % role, "result for an over-long %s not recognised: %s" % (role, [o[:80] for o in outs]), c.where(good[2]))
+
+
 def _short(b):
     return b.nname.replace("melvm::", "").replace("{closure#", "c").replace("}", "")
 
@@ -487,4 +596,4 @@ def shared(ctx):
     core.import_rules(ctx, [c11.r3_forward_pc, c11.r4_nesting, c11.r5_length_guards], "X11")
 
 
-RULES = [r1_dispatch, r2_alu, r3_failure_discipline, r4_determinism, r5_result, r6_layouts, r7_bounded_exp, r8_narrowing, r9_bounds_on_full_width, shared]
+RULES = [r1_dispatch, r2_alu, r3_failure_discipline, r4_determinism, r5_result, r6_layouts, r7_bounded_exp, r8_narrowing, r9_bounds_on_full_width, r10_sigeok_bounds, shared]
